@@ -87,8 +87,10 @@ check:
 
 	/* otherwise check if the current exception overlaps with E */
 	with (echs_range_t r = echs_event_range(e)) {
-		if (echs_range_overlaps_p(r, this->ex)) {
-			/* yes it does */
+		if (echs_instant_eq_p(r.beg, this->ex.beg) ||
+		    echs_range_overlaps_p(r, this->ex)) {
+			/* yes it does, or it is named by its start which is
+			 * all there is to events without duration */
 			(void)echs_evstrm_pop(this->e);
 			e = echs_evstrm_next(this->e);
 			goto check;
